@@ -14,6 +14,11 @@ Theorem c04_burst_cursors : C04_burst_cursors.
 Proof. exact c04_burst_cursors_proof. Qed.
 Print Assumptions c04_burst_cursors.
 
+(* the cursor clauses written out for the three bursts *)
+Theorem c04_burst_discipline : C04_burst_discipline.
+Proof. exact c04_burst_discipline_proof. Qed.
+Print Assumptions c04_burst_discipline.
+
 (* the file source resuming from / through a cursor *)
 Theorem c04_file_cursors : C04_file_cursors.
 Proof. exact c04_file_cursors_proof. Qed.
